@@ -533,7 +533,7 @@ func (P *Program) runBounded(verif, prop, tier, replayDir string) []BoundedResul
 		of := filepath.Join(dir, "ov.json")
 		os.WriteFile(of, ob, 0o644)
 		ctx, cancel := context.WithTimeout(context.Background(), 900*time.Second)
-		cmd := exec.CommandContext(ctx, "go", "test", "-overlay", of, "-vet=off", "-timeout", "800s", "-run", "^"+sp.Test+"$", "-count=1", "./"+sp.Pkg+"/")
+		cmd := exec.CommandContext(ctx, "go", "test", "-overlay", of, "-vet=off", "-timeout", "800s", "-run", "^"+sp.Test+"$", "-count=1", "-v", "./"+sp.Pkg+"/")
 		cmd.Dir = P.repo
 		cmd.Env = append(goEnv(), strings.Fields(sp.Env[tier])...)
 		var buf bytes.Buffer
